@@ -52,6 +52,7 @@ MUTANTS = [
     ("C06", "haversine-radians", "typhon/geographical.py", "            distances *= earth_radius\n", "            pass\n"),
     ("C06", "haversine-radius", "typhon/geographical.py", "            r *= 1000. / earth_radius", "            r *= 1. / earth_radius"),
     ("C06", "nodist-unshuffled", "typhon/geographical.py", "            if pairs.size and self.shuffler is not None:", "            if False:"),
+    ("C04", "number-threshold-truncated", "typhon/utils/timeutils.py", "        return timedelta(**{numbers_as: float(obj)})", "        return timedelta(**{numbers_as: int(obj)})"),
     ("C04", "window-ignored-without-max-interval", "typhon/collocations/collocator.py", "        if max_interval is not None \\\n                or start > datetime.min or end < datetime.max:", "        if max_interval is not None:"),
     ("C04", "interval-le", "typhon/collocations/collocator.py", "passed_time_check = intervals < max_interval", "passed_time_check = intervals <= max_interval"),
     ("C04", "window-one-sided", "typhon/collocations/collocator.py", "            & (primary.time.values <= np.datetime64(common_end))", "            & (primary.time.values <= np.datetime64(datetime.max))"),
